@@ -1,5 +1,197 @@
-"""Mechanical program-text obligations."""
+"""Mechanical program-text obligations (run on every check that lists them)."""
+import glob
+import os
+import re
+import sys
+
+sys.path.insert(0, os.path.dirname(os.path.abspath(__file__)))
+from extract import SourceFile, ExtractError, lex, code_tokens  # noqa: E402
+
+
+def _src_files(repo):
+    return sorted(glob.glob(os.path.join(repo, "src", "**", "*.rs"), recursive=True))
+
+
+def _unsafe_sites(repo):
+    """(file, enclosing fn name, enclosing impl header) of every `unsafe` token outside comments/strings and test modules."""
+    out = []
+    for path in _src_files(repo):
+        rel = os.path.relpath(path, repo)
+        sf = SourceFile(path, rel)
+        toks = [t for t in code_tokens(lex(sf.src)) if t.kind == "ident" and t.text == "unsafe"]
+        for t in toks:
+            where = None
+            skip = False
+            for it in sf.walk(skip_test_mods=False):
+                if it.kind == "mod" and "cfg(test)" in sf.src[it.attr_start:it.start] and it.start <= t.start < it.end:
+                    skip = True
+                if it.kind == "impl" and it.start <= t.start < it.end:
+                    for c in it.children:
+                        if c.kind == "fn" and c.start <= t.start < c.end:
+                            where = (rel, c.name, it.name)
+                    if where is None:
+                        where = (rel, None, it.name)
+                elif it.kind == "fn" and it.start <= t.start < it.end and where is None:
+                    where = (rel, it.name, None)
+            if not skip:
+                out.append(where or (rel, None, None))
+    return out
+
+
+ACCEPTED_STRING_FORMS = {"String", "& String", "& str", "& & str"}
+
+
+def string_write_paths_closed(repo):
+    """C04, "by construction" half:
+    (a) `unsafe` occurs exactly once under src/, inside `StringRegion::index` (the function under contract);
+    (b) every `impl Push<X> for StringRegion<..>` takes a string type X in {String, &String, &str, &&str};
+    (c) no function of string.rs other than those four `push` bodies feeds bytes to the inner region
+        (`self.inner.push` / `push_storage`), and the `inner` field is private."""
+    problems = []
+    checked = 0
+    sites = _unsafe_sites(repo)
+    checked += len(sites)
+    good = [s for s in sites if s[0] == os.path.join("src", "impls", "string.rs") and s[1] == "index" and s[2] and "Region for StringRegion" in s[2]]
+    if len(sites) != 1 or len(good) != 1:
+        problems.append(f"`unsafe` sites under src/: {sites} (expected exactly one, in StringRegion::index)")
+    sf = SourceFile(os.path.join(repo, "src", "impls", "string.rs"), "src/impls/string.rs")
+    for it in sf.walk():
+        if it.kind != "impl":
+            continue
+        m = re.search(r"\bPush < (.*) > for StringRegion <", it.name)
+        if m:
+            checked += 1
+            form = m.group(1).strip()
+            form = re.sub(r"'[a-z_]+ ", "", form)
+            if form not in ACCEPTED_STRING_FORMS:
+                problems.append(f"string.rs: `impl Push<{form}> for StringRegion` accepts a non-string input form")
+        if "StringRegion" in it.name:
+            for c in it.children:
+                if c.kind != "fn":
+                    continue
+                checked += 1
+                body = sf.src[c.head_end:c.end]
+                feeds = re.search(r"self\s*\.\s*inner\s*\.\s*push\s*\(|push_storage|&\s*mut\s+self\s*\.\s*inner", body)
+                is_push_impl = bool(m) and c.name == "push"
+                if feeds and not is_push_impl:
+                    problems.append(f"string.rs: fn {c.name} in `{it.name[:60]}` writes to the inner byte region outside the contracted push paths")
+    st = sf.item("struct", "StringRegion")
+    if re.search(r"\bpub(\s*\([^)]*\))?\s+inner\s*:", st.text):
+        problems.append("string.rs: field `inner` of StringRegion is not private")
+    checked += 1
+    if problems:
+        return dict(status="violation", checked=checked, detail="; ".join(problems))
+    return dict(status="ok", checked=checked, detail=f"1 unsafe site (StringRegion::index); {checked} items inspected")
+
+
+def no_shared_state(repo):
+    """C09: independence of clones follows from ownership if src/ uses no shared-mutability or aliasing primitives."""
+    bad = []
+    n = 0
+    for path in _src_files(repo):
+        rel = os.path.relpath(path, repo)
+        src = open(path).read()
+        toks = code_tokens(lex(src))
+        n += len(toks)
+        for i, t in enumerate(toks):
+            if t.kind == "ident" and t.text in ("Rc", "Arc", "Cell", "RefCell", "UnsafeCell", "Mutex", "RwLock", "AtomicUsize"):
+                bad.append(f"{rel}: {t.text}")
+            if t.kind == "ident" and t.text == "static" and i + 1 < len(toks) and toks[i + 1].text == "mut":
+                bad.append(f"{rel}: static mut")
+            if t.text == "*" and i + 1 < len(toks) and toks[i + 1].text in ("const", "mut") and i > 0 and toks[i - 1].text in (":", "<", "(", ",", "->", "as"):
+                bad.append(f"{rel}: raw pointer type")
+    if bad:
+        return dict(status="violation", checked=n, detail="shared-state primitives in src/: " + ", ".join(sorted(set(bad))))
+    return dict(status="ok", checked=n, detail=f"{n} tokens scanned, no Rc/Arc/Cell/RefCell/raw pointer/static mut")
+
+
+def _struct_fields(sf, name):
+    st = sf.item("struct", name)
+    body = st.text[st.text.index("{") + 1:st.text.rindex("}")]
+    return re.findall(r"^\s*(?:pub\s+)?([a-z_][a-z0-9_]*)\s*:", body, flags=re.M)
+
+
+CLONE_TARGETS = [
+    ("src/lib.rs", "FlatStack"), ("src/impls/slice.rs", "SliceRegion"), ("src/impls/slice_owned.rs", "OwnedRegion"),
+    ("src/impls/string.rs", "StringRegion"), ("src/impls/option.rs", "OptionRegion"), ("src/impls/result.rs", "ResultRegion"),
+    ("src/impls/columns.rs", "ColumnsRegion"), ("src/impls/deduplicate.rs", "CollapseSequence"),
+    ("src/impls/deduplicate.rs", "ConsecutiveIndexPairs"), ("src/impls/codec.rs", "CodecRegion"),
+    ("src/impls/huffman_container.rs", "HuffmanContainer"),
+]
+
+
+def clone_field_complete(repo):
+    """C09: every hand-written clone / clone_from mentions every (non-marker) field of its struct."""
+    problems, n = [], 0
+    for rel, name in CLONE_TARGETS:
+        sf = SourceFile(os.path.join(repo, rel), rel)
+        fields = [f for f in _struct_fields(sf, name) if not f.startswith("_")]
+        impls = [it for it in sf.walk() if it.kind == "impl" and re.search(r"\bClone for " + name + r"\b", it.name)]
+        if len(impls) != 1:
+            return dict(status="undecided", checked=n, detail=f"{rel}: Clone impl for {name} matched {len(impls)} blocks")
+        for c in impls[0].children:
+            if c.kind == "fn" and c.name in ("clone", "clone_from"):
+                body = sf.src[c.head_end:c.end]
+                for f in fields:
+                    n += 1
+                    if not re.search(r"\b" + f + r"\b", body):
+                        problems.append(f"{rel}: {name}::{c.name} does not mention field `{f}`")
+    if problems:
+        return dict(status="violation", checked=n, detail="; ".join(problems))
+    return dict(status="ok", checked=n, detail=f"{n} (fn, field) pairs checked")
+
+
+HEAP_TARGETS = [
+    ("src/lib.rs", "FlatStack", ["indices", "region"]), ("src/impls/slice.rs", "SliceRegion", ["slices", "inner"]),
+    ("src/impls/slice_owned.rs", "OwnedRegion", ["slices"]), ("src/impls/string.rs", "StringRegion", ["inner"]),
+    ("src/impls/option.rs", "OptionRegion", ["inner"]), ("src/impls/result.rs", "ResultRegion", ["oks", "errs"]),
+    ("src/impls/columns.rs", "ColumnsRegion", ["indices", "inner"]), ("src/impls/deduplicate.rs", "CollapseSequence", ["inner"]),
+    ("src/impls/deduplicate.rs", "ConsecutiveIndexPairs", ["inner", "indices"]),
+]
+
+
+def heap_size_forwards_all(repo):
+    """C18: every storage-bearing field of a struct appears in its heap_size body."""
+    problems, n = [], 0
+    for rel, name, fields in HEAP_TARGETS:
+        sf = SourceFile(os.path.join(repo, rel), rel)
+        real = _struct_fields(sf, name)
+        for f in fields:
+            if f not in real:
+                return dict(status="undecided", checked=n, detail=f"{rel}: {name} has no field {f} any more (anchor lost)")
+        cands = []
+        for it in sf.walk():
+            if it.kind == "impl" and re.search(r"\b" + name + r"\b", it.name) and "Clone" not in it.name:
+                cands += [c for c in it.children if c.kind == "fn" and c.name == "heap_size"]
+        if len(cands) != 1:
+            return dict(status="undecided", checked=n, detail=f"{rel}: heap_size of {name} matched {len(cands)} fns")
+        body = sf.src[cands[0].head_end:cands[0].end]
+        for f in real:
+            if f.startswith("_") or f == "last_index":
+                continue
+            n += 1
+            if not re.search(r"self\s*\.\s*" + f + r"\b", body):
+                problems.append(f"{rel}: {name}::heap_size does not mention field `{f}`")
+    if problems:
+        return dict(status="violation", checked=n, detail="; ".join(problems))
+    return dict(status="ok", checked=n, detail=f"{n} (struct, field) pairs checked")
+
+
+SCANS = {
+    "string_write_paths_closed": string_write_paths_closed,
+    "no_shared_state": no_shared_state,
+    "clone_field_complete": clone_field_complete,
+    "heap_size_forwards_all": heap_size_forwards_all,
+}
 
 
 def run(name, repo):
-    return dict(status="undecided", checked=0, detail=f"unknown scan {name}")
+    try:
+        return SCANS[name](repo)
+    except (ExtractError, KeyError, ValueError) as e:
+        return dict(status="undecided", checked=0, detail=f"scan {name}: {e}")
+
+
+if __name__ == "__main__":
+    for k in SCANS:
+        print(k, run(k, sys.argv[1] if len(sys.argv) > 1 else "/repo"))
